@@ -806,8 +806,16 @@ func (i *Interpreter) ProcessLog() error {
 	// Simulate Fastly statement lifecycle
 	// see: https://developer.fastly.com/learning/vcl/using/#the-vcl-request-lifecycle
 	if sub, ok := i.ctx.Subroutines[context.FastlyVclNameLog]; ok {
-		if _, err := i.ProcessSubroutine(sub, DebugPass, nil); err != nil {
+		state, err := i.ProcessSubroutine(sub, DebugPass, nil)
+		if err != nil {
 			return errors.WithStack(err)
+		}
+		if state != DELIVER && state != NONE {
+			return exception.Runtime(&sub.GetMeta().Token,
+				"Subroutine %s returned unexpected state %s in LOG",
+				sub.Name.Value,
+				state,
+			)
 		}
 	}
 	return nil
